@@ -40,6 +40,13 @@ def exprs(tier):
     i2 = L.I(L.aff(0, s=1, t=0.5), L.aff(2, s=1, t=1))
     out += [L.BL(i2), L.BR(i2)]
     # shape / motion functions that DECLARE a default for a variable: fixing that optional variable by a call must count
+    # one parameter in exactly ONE constructor slot of a primitive (a slot forgotten when the needed variables are
+    # registered or when the shape is partially evaluated shows only here), and two parameters in different slots
+    out += [L.T([0, 0], [1, 0], [0.3, L.aff(0.8, t=0.5)]), L.T([0, 0], [L.aff(1, t=0.5), 0.1], [0.2, 1]),
+            L.T([L.aff(-0.2, t=0.3), 0], [1, 0], [0.3, 0.9]), L.T([L.aff(-0.2, s=0.3), 0], [1, 0.1], [0.3, L.aff(0.8, t=0.5)]),
+            L.P([0, 0], [1, 0], [0.2, L.aff(0.8, t=0.5)]), L.P([0, 0], [L.aff(1, t=0.5), 0.1], [0.2, 1]),
+            L.P([L.aff(-0.2, s=0.3), 0], [1, 0.1], [0.2, L.aff(0.8, t=0.5)]),
+            L.I(L.aff(-1, t=0.5), 1), L.S([0.1, L.aff(0, t=0.4), 0], 0.5), L.C([0.2, L.aff(0, t=0.4)], 0.5)]
     out += L.default_exprs(tier)[:3] + L.default_exprs(tier)[4:] + [L.Rot(L.SQ, G.affd(0.0, {"w": 1.0}, t=1.0, w=0.5))]
     return L.dedupe(out)
 
